@@ -1,4 +1,5 @@
 """C14 — importing one bundled grammar never changes another."""
+import common as C
 import p_c09
 
 VFILES = ["props/C14.v"]
@@ -16,4 +17,15 @@ def run(ctx):
                    "for every module involved: every rule of its classes (spelling, definition structure incl. first-match flags, "
                    "exclusions, first_match_alternation property) vs the same module imported alone; core and meta rules vs a clean "
                    "process; and module-alone vs the loader model (r_only)")
-    return {"coverage": cov, "violations": r["violations"]}
+    viol = list(r["violations"])
+    if ctx["tier"] == "thorough":
+        # all 625 ordered pairs and every module first / last, evaluated by the kernel on the translated module descriptions
+        rc, so, se = C.sh("timeout 5400 coqc -Q . ABNF thorough/C14_orders.v", cwd=C.COQ, timeout=5500)
+        ok = rc == 0 and so.count("Closed under the global context") >= 2
+        cov["more_orders_kernel_checked"] = {"file": "coq/thorough/C14_orders.v", "discharged": ok, "ordered_pairs": 625,
+                                             "first_last_orders": 75}
+        if not ok:
+            viol.append({"what": "kernel-checked obligation 'every ordered pair / every module first and last gives the same configuration' no longer holds: " + (so + se)[-300:],
+                         "identity": "c14-orders-obligation", "no_input": True,
+                         "replay_payload": {"property": "C14", "no_longer_checks": "coq/thorough/C14_orders.v", "output": (so + se)[-1500:]}})
+    return {"coverage": cov, "violations": viol}
